@@ -3957,8 +3957,14 @@ def fix_if_return(source: str) -> str:
     return False
     """
     replace = "return {{condition}}"
+    boolean = (ast.Compare, ast.UnaryOp(op=ast.Not), ast.Constant(value=bool))
 
-    yield from processing.find_replace(source, find, replace, transaction=0)
+    yield from processing.find_replace(source, find, replace, condition=boolean, transaction=0)
+
+    # Other conditions are only truthy or falsy, the function returned True or False
+    replace = "return bool({{condition}})"
+
+    yield from processing.find_replace(source, find, replace, transaction=3)
 
     find = """
     if {{condition}}:
@@ -3988,8 +3994,14 @@ def fix_if_assign(source: str) -> str:
         {{variable}} = False
     """
     replace = "{{variable}} = {{condition}}"
+    boolean = (ast.Compare, ast.UnaryOp(op=ast.Not), ast.Constant(value=bool))
 
-    yield from processing.find_replace(source, find, replace, transaction=0)
+    yield from processing.find_replace(source, find, replace, condition=boolean, transaction=0)
+
+    # Other conditions are only truthy or falsy, the variable was True or False
+    replace = "{{variable}} = bool({{condition}})"
+
+    yield from processing.find_replace(source, find, replace, transaction=3)
 
     find = """
     if {{condition}}:
